@@ -136,7 +136,7 @@ class OverflowAction(Contract):
     layer = 2
     uses = ('utils:wrap', 'utils:clip')
     props = {'*': ['C01'], 'value': ['C01', 'C02', 'C03', 'C18'], 'flag_overflow': ['C04', 'C18'], 'flag_underflow': ['C04', 'C18'],
-             'log': ['C04'], 'sticky': ['C04'], 'frame': ['C04', 'C20']}
+             'log': ['C04'], 'frame': ['C04', 'C20']}
 
     def configs(self, tier):
         fm = [(True, 1), (True, 2), (True, 8), (False, 1), (False, 8), (True, 52), (False, 52), (True, 31), (False, 32)]
@@ -265,6 +265,8 @@ class SetVal(Contract):
        callbacks once per write in the order overflow, underflow, inaccuracy, value_change; codes in range;
        read-back = code * 2^-n_frac; with index=i only element i changes; format metadata untouched."""
     name = 'objects:Fxp.set_val'
+    primary = ['C01', 'C03', 'C04', 'C05']
+    secondary_stride = 5
     layer = 3
     uses = ('utils:wrap', 'utils:clip', 'objects:Fxp._get_conv_factor', 'objects:Fxp._round', 'objects:Fxp._overflow_action')
     props = {'code_eq_Q': ['C01', 'C03', 'C10'], 'in_range': ['C02'], 'readback': ['C01', 'C16'],
